@@ -303,6 +303,8 @@ def run(ctx):
     # R5.15: no behaviour changes at a number fixed in the source (sizes, depths, counts, magnitudes are unbounded in the property's domain)
     from . import scope as _scope
     _scope.rule_no_size_thresholds(ctx, 'R5.15', ('validators', '_validators', '_legacy_validators', '_utils'), 'the dispatcher and the keyword functions')
+    # R5.16: what an error is stamped with does not depend on which earlier errors the consumer still holds (C05-r8m2: a set of id(error))
+    _scope.rule_no_address_keys(ctx, 'R5.16', ('validators', '_validators', '_legacy_validators', '_utils', 'exceptions'), 'the dispatcher, the keyword functions and the error classes')
 
 def rule_carriers(ctx, rid="R5.13"):
     """A keyword reaches every value its draft's type checker puts in the keyword's domain: the package's own draft classes, built
